@@ -12,6 +12,8 @@ and emit-by-names as the grouping it stands for.
 import MillerModel.Model.DSL
 import MillerModel.Gen.Grammar
 import MillerModel.Lemmas.C14Interp
+import MillerModel.Lemmas.C14Typed
+import MillerModel.Lemmas.C14Output
 namespace Miller
 namespace Props.C14
 open DSL
@@ -79,11 +81,12 @@ theorem declaration_enforces_type (f : Frame) (rest : Stack) (x : String) (ty : 
 
 theorem find_update_same (f : Frame) (x : String) (v : DV) (b : Binding) (h : Frame.find f x = some b) :
     Frame.find (Frame.update f x v) x = some { b with val := v } := by
-  unfold Frame.find Frame.update at *
+  unfold Frame.find at *
   induction f with
   | nil => simp at h
   | cons c cs ih =>
-    simp only [List.map_cons, List.find?_cons] at h ⊢
+    unfold Frame.update
+    simp only [List.find?_cons] at h
     cases hc : (c.name == x) with
     | true =>
       rw [hc] at h
@@ -92,7 +95,7 @@ theorem find_update_same (f : Frame) (x : String) (v : DV) (b : Binding) (h : Fr
       simp [hc]
     | false =>
       rw [hc] at h
-      simp only [Bool.false_eq_true, if_false, hc]
+      simp only [Bool.false_eq_true, if_false, List.find?_cons, hc]
       exact ih h
 
 /-- Undeclared assignment `x = v` with `x` bound in the INNERMOST frame: that binding is updated,
@@ -377,6 +380,47 @@ variables, same types, same values. (`inCall false` is how `callFn` and `call` r
 theorem named_call_leaves_the_callers_locals_alone (frame : Frame) (body : M Sig) (s : St) :
     (runM (inCall false frame body) s).2.stack = s.stack :=
   inCall_named_restores frame body s
+
+/-! ### the whole interpreter: declared types hold at every point of every run
+
+`wtB st`: every binding of every frame of `st` holds a value its declared type admits, or nothing
+(after `unset`).  The second induction over the interpreter (`Lemmas/C14Typed.lean`, `allKeeps`). -/
+
+/-- What `wtB` says, binding by binding. -/
+theorem well_typed_means (st : Stack) :
+    wtB st = true ↔ ∀ f ∈ st, ∀ b ∈ f, (b.ty.admits b.val = true ∨ b.val.isAbsent = true) := by
+  simp only [wtB, Frame.wt, Binding.wt, List.all_eq_true, Bool.or_eq_true]
+
+/-- TYPE DECLARATIONS ARE ENFORCED AT EVERY ASSIGNMENT: from a well-typed stack, whatever a statement
+does - declarations, assignments at any nesting, loop bindings, calls with typed parameters,
+recursion, higher-order functions, errors caught at a call - and however it ends, every variable that
+exists afterwards still holds a value of its declared type. No execution path of the interpreter
+stores a value past a type gate. -/
+theorem declared_types_hold_after_every_statement (p : Prog) (fuel : Nat) (st : Stmt) (s : St)
+    (h : wtB s.stack = true) : wtB (runM (exec p fuel st) s).2.stack = true :=
+  (allKeeps p fuel).exec st s h
+
+/-- ... and after every expression (user functions run statements). -/
+theorem declared_types_hold_after_every_expression (p : Prog) (fuel : Nat) (e : Expr) (s : St)
+    (h : wtB s.stack = true) : wtB (runM (eval p fuel e) s).2.stack = true :=
+  (allKeeps p fuel).eval e s h
+
+/-- The stack every top-level block starts from is well-typed (it is empty), so the invariant holds
+throughout every run. -/
+theorem initial_stack_is_well_typed : wtB [[]] = true ∧ wtB [] = true := ⟨rfl, rfl⟩
+
+/-! ### the whole interpreter: output is append-only (third induction, `Lemmas/C14Output.lean`) -/
+
+/-- PRINTED AND EMITTED TEXT STAYS WHERE IT WAS PRODUCED: over every statement, on every outcome, the
+output before it is a prefix of the output after it - nothing already printed or emitted is changed,
+dropped or reordered by what runs later (loops, calls, errors caught at a call included). -/
+theorem output_is_append_only_over_every_statement (p : Prog) (fuel : Nat) (st : Stmt) (s : St) :
+    s.out <+: (runM (exec p fuel st) s).2.out :=
+  (allAppends p fuel).exec st s
+
+theorem output_is_append_only_over_every_expression (p : Prog) (fuel : Nat) (e : Expr) (s : St) :
+    s.out <+: (runM (eval p fuel e) s).2.out :=
+  (allAppends p fuel).eval e s
 
 /-- Non-vacuity: the premises above are met by ordinary states. -/
 example : ∃ st', Stack.define ([] :: [[{ name := "x", ty := .int, val := vint 1 }]]) "x" .str (vstr [97]) = .ok st' ∧
